@@ -15,6 +15,15 @@ Streams
                     TransportError objects, raised after the end was recorded the way factory.py's on_request_exception hook
                     does) at any position of a composite, also inside concurrent streams
   clients           2..4 clients in one loop (joint run) + every client alone (solo run): non-interference
+  real_client       the REAL client stack (EsClientFactory.create_async -> RallyAsyncElasticsearch -> elastic_transport -> aiohttp with
+                    the trace hooks registered by factory.py) over real loopback sockets against a scripted HTTP server in the same
+                    (virtual-time) event loop: delays before headers / between headers and body, chunked bodies, 404 / 503 (transport
+                    retries), HEAD, POST, connection dropped by the server, client request-timeout expiring before / after the headers
+                    / mid-body; oracle from the server's own log.  Timing is virtual (exact); the clock advances only when no socket
+                    becomes ready within VIOLoop.GRACE = 3 ms real time; a finding is reported only if a second execution reproduces it.
+
+translate(): RallyGen/TraceHooks.lean = the (signal, callback) registrations of EsClientFactory.create_async and the exception handler
+of RallyAsyncElasticsearch.perform_request, from the AST; the theorems hooks_start_and_end, ... are about that table.
 
 Sub-requests of a composite carry an optional `name` that need not be unique: names are drawn from a small pool with repeats
 and omissions; the dependent_timing list (taken exactly as AsyncExecutor hands it to the Sampler) must be, as a multiset, one
@@ -146,8 +155,34 @@ def q(x):
     return f"{f.numerator}/{f.denominator}"
 
 
-def run_loop(main_factory, clock=None):
-    loop = VLoop()
+class VIOLoop(VLoop):
+    """virtual time + real loopback I/O: the clock only jumps to the next timer when no socket becomes ready within GRACE
+    seconds of real time (data written to a loopback socket is readable by the peer at once; GRACE is a safety margin)"""
+
+    GRACE = 0.003
+
+    def _run_once(self):
+        self.steps += 1
+        if self.steps > 400000:
+            raise HarnessError("virtual loop: too many iterations")
+        while self._scheduled and self._scheduled[0]._cancelled:
+            h = heapq.heappop(self._scheduled)
+            h._scheduled = False
+        if not self._ready:
+            ev = self._selector.select(0) or self._selector.select(self.GRACE)
+            if ev:
+                self._process_events(ev)
+            elif self._scheduled:
+                w = self._scheduled[0]._when
+                if w > self._vt:
+                    self._vt = w
+            else:
+                raise HarnessError("virtual loop: deadlock (nothing ready, no timer, no I/O)")
+        asyncio.SelectorEventLoop._run_once(self)
+
+
+def run_loop(main_factory, clock=None, loop_cls=None):
+    loop = (loop_cls or VLoop)()
     _Clock.fn = clock(loop) if clock else loop.time
     asyncio.set_event_loop(loop)
     try:
@@ -162,7 +197,9 @@ def run_loop(main_factory, clock=None):
 # the recording endpoint: a real RequestContextHolder whose managers are observed through a proxy
 # ---------------------------------------------------------------------------------------------------------
 class Recorder:
-    def __init__(self):
+    def __init__(self, lenient=False):
+        self.lenient = lenient          # real client stack: tasks of aiohttp / of the loopback server are none of our business
+        self.accept_clients = not lenient
         self.events = []
         self.tasks = {}       # asyncio.Task -> id
         self.task_objs = []
@@ -187,6 +224,8 @@ class Recorder:
     def task_factory(self, loop, coro, **kw):
         t = asyncio.Task(coro, loop=loop, **kw)
         parent = asyncio.current_task(loop)
+        if self.lenient and (parent is None or (parent is not self.main and parent not in self.tasks) or (parent is self.main and not self.accept_clients)):
+            return t
         if parent is None:
             raise HarnessError("task created outside the harness main task")
         i = len(self.task_objs)
@@ -883,12 +922,14 @@ def gen_clients(ctx):
         yield {"clients": [gen_client(rng, i, rng.choice([1, 2, 2, 3])) for i in range(rng.choice([2, 2, 3, 4]))]}
 
 
-def exec_clients(clients):
+def exec_clients(clients, stack=None):
     """AsyncIoAdapter.run in miniature: one real AsyncExecutor per client, started with gather from a task in which
-    the request-context variable is unset"""
+    the request-context variable is unset.  stack=None: the fake endpoint on the virtual-time loop; stack=RealStack: the real
+    client stack (EsClientFactory.create_async -> RallyAsyncElasticsearch -> aiohttp with the real trace hooks) against a scripted
+    loopback server; then the result is (rec, samples recorded so far, exception text or None)"""
     mods = _mods()
     driver, runner, metrics = mods["driver"], mods["runner"], __import__("esrally.metrics", fromlist=["x"])
-    rec = Recorder()
+    rec = Recorder(lenient=stack is not None)
     raw_deps = []
 
     class RecSampler(driver.Sampler):
@@ -936,27 +977,37 @@ def exec_clients(clients):
         rec.main = asyncio.current_task()
         loop.set_task_factory(rec.task_factory)
         aws = []
+        if stack is not None:
+            await stack.start(rec, loop)
         for cl in clients:
-            es = make_es(rec, cl["id"])
+            es = make_es(rec, cl["id"]) if stack is None else stack.make_es(rec, cl["id"])
             ess[cl["id"]] = es
             op = types.SimpleNamespace(name=f"task{cl['id']}", type="composite", meta_data={})
             task = types.SimpleNamespace(name=f"task{cl['id']}", operation=op, meta_data={}, any_completes_parent=False, completes_parent=False)
             ex = driver.AsyncExecutor(cl["id"], task, Sched(es, cl), {"default": es}, sampler, Flag(), Flag(), "continue")
             aws.append(ex())
         try:
-            await asyncio.gather(*aws)
+            rec.accept_clients = True
+            g = asyncio.gather(*aws)
+            rec.accept_clients = not rec.lenient
+            await g
         finally:
             # streams of a composite whose sibling failed are not awaited by the code (some are cancelled, some simply keep
             # running and even create further stream tasks): let all of them finish before the loop is closed
             while any(not t.done() for t in rec.task_objs):
                 await asyncio.gather(*[t for t in rec.task_objs if not t.done()], return_exceptions=True)
+            if stack is not None:
+                await stack.stop()
 
+    failure = None
     try:
-        run_loop(main)
+        run_loop(main, loop_cls=None if stack is None else VIOLoop)
     except HarnessError:
         raise
     except Exception as ex:
-        return rec, {"exception": f"{type(ex).__name__}: {ex}"[:300]}
+        failure = f"{type(ex).__name__}: {ex}"[:300]
+        if stack is None:
+            return rec, {"exception": failure}
     samples = []
     for s, raw in zip(sampler.samples, raw_deps):
         rawl = None
@@ -970,10 +1021,12 @@ def exec_clients(clients):
         samples.append({"client": s.client_id, "start": q(s.request_start), "svc": q(s.service_time), "latency": q(s.latency),
                         "period": q(s.time_period), "deps": deps, "success": bool(s.request_meta_data.get("success")),
                         "error-type": s.request_meta_data.get("error-type"), "ops": s.total_ops, "raw_deps": rawl})
+    if stack is not None:
+        return rec, samples, failure
     return rec, samples
 
 
-def check_against_model(ctx, what, rec, samples, clients):
+def check_against_model(ctx, what, rec, samples, clients, aborted=False):
     m = ctx.model("ctx", "run", {"fx": FX, "evs": rec.events})
     if "err" in m:
         ctx.diff(what + ": model rejects the recorded trace", m, None)
@@ -995,6 +1048,8 @@ def check_against_model(ctx, what, rec, samples, clients):
     for cl, t in zip(clients, client_tasks):
         ss = [s for s in samples if s["client"] == cl["id"]]
         cs = [c for c in range(len(rec.mgrs)) if rec.parent[c] is None and rec.opener[c] == t]
+        if aborted and len(ss) < len(cs):
+            cs = cs[: len(ss)]          # the executor was aborted by a fatal error: the remaining requests have no sample
         if len(ss) != len(cs):
             ctx.diff(f"{what}: number of samples of client {cl['id']}", len(cs), len(ss))
             continue
@@ -1242,10 +1297,586 @@ def run_clients(ctx, case):
     ctx.sig([m.get("tags"), sh, cls, leak], nontrivial=any(p is not None for p in rec.parent))
 
 
+# ---------------------------------------------------------------------------------------------------------
+# stream: real_client — the REAL client stack against a scripted loopback HTTP server
+# ---------------------------------------------------------------------------------------------------------
+CLS_NOEND = "wire-request-not-covered"                 # a necessary condition fails: start after the server got the request / no end /
+                                                        # end before the server answered
+CLS_HDR_END = "failure-while-reading-body-ends-at-headers"   # end = arrival of the response headers although the request went on (and failed) later
+CLS_REAL = "real-stack-span"
+
+
+class ScriptedServer:
+    """loopback HTTP/1.1 server in the harness' own event loop; every exchange follows the script of its path and is logged with
+    the loop's (virtual) time: recv = request completely received, hdr = response headers written, end = the exchange is over
+    (how = done: response complete / eof: the client closed the connection / close: the server closed it)"""
+
+    def __init__(self, scripts):
+        self.scripts = scripts
+        self.log = []
+        self.server = None
+        self.port = None
+        self.handlers = []
+
+    async def start(self):
+        self.server = await asyncio.start_server(self.handle, "127.0.0.1", 0)
+        self.port = self.server.sockets[0].getsockname()[1]
+
+    async def stop(self):
+        self.server.close()
+        for t, w in self.handlers:
+            w.close()
+        await asyncio.gather(*[t for t, _ in self.handlers], return_exceptions=True)
+
+    @staticmethod
+    def now():
+        return asyncio.get_running_loop().time()
+
+    async def gone(self, reader, delay):
+        """wait `delay`; True if the client closed the connection meanwhile"""
+        if delay is None:
+            return False
+        probe = asyncio.ensure_future(reader.read(1))
+        done, _ = await asyncio.wait([probe], timeout=delay)
+        if done:
+            return True      # EOF (a client never sends anything while it waits for a response)
+        probe.cancel()
+        try:
+            await probe
+        except asyncio.CancelledError:
+            pass
+        return False
+
+    async def handle(self, reader, writer):
+        self.handlers.append((asyncio.current_task(), writer))
+        try:
+            while True:
+                first = await reader.read(1)
+                if not first:
+                    return
+                head = first + await reader.readuntil(b"\r\n\r\n")
+                lines = head.split(b"\r\n")
+                method, target, _ = lines[0].decode().split(" ")
+                length = 0
+                for ln in lines[1:]:
+                    if ln.lower().startswith(b"content-length:"):
+                        length = int(ln.split(b":")[1])
+                if length:
+                    await reader.readexactly(length)
+                path = target.split("?")[0]
+                ex = {"path": path, "method": method, "recv": self.now(), "hdr": None, "end": None, "how": None}
+                self.log.append(ex)
+                if not await self.respond(reader, writer, self.scripts[path], ex, method):
+                    return
+        except (asyncio.IncompleteReadError, ConnectionError):
+            pass
+        finally:
+            writer.close()
+
+    async def respond(self, reader, writer, sc, ex, method):
+        def over(how):
+            ex["end"], ex["how"] = self.now(), how
+            return False
+
+        async def until_gone():
+            await self.gone(reader, 4096.0)
+            return over("eof")
+
+        if await self.gone(reader, sc.get("pre")):
+            return over("eof")
+        if sc.get("stall") == "before_headers":
+            return await until_gone()
+        if sc.get("close") == "before_headers":
+            return over("close")
+        body = b'{"took":1,"hits":{"total":{"value":0}}}' if sc["status"] < 400 else b'{"error":{"type":"scripted_failure"},"status":%d}' % sc["status"]
+        chunks = sc.get("chunks")
+        head = b"HTTP/1.1 %d X\r\nContent-Type: application/json\r\nX-Elastic-Product: Elasticsearch\r\n" % sc["status"]
+        head += b"Transfer-Encoding: chunked\r\n\r\n" if chunks is not None and method != "HEAD" else b"Content-Length: %d\r\n\r\n" % len(body)
+        writer.write(head)
+        await writer.drain()
+        ex["hdr"] = self.now()
+        if method == "HEAD":
+            ex["end"], ex["how"] = self.now(), "done"
+            return True
+        if sc.get("stall") == "after_headers":
+            return await until_gone()
+        if sc.get("close") == "after_headers":
+            return over("close")
+        if chunks is None:
+            if await self.gone(reader, sc.get("body_delay")):
+                return over("eof")
+            writer.write(body)
+        else:
+            for i, d in enumerate(chunks):
+                if await self.gone(reader, d):
+                    return over("eof")
+                if i == len(chunks) // 2 and sc.get("stall") == "mid_body":
+                    return await until_gone()
+                if i == len(chunks) // 2 and sc.get("close") == "mid_body":
+                    return over("close")
+                piece = body[i * len(body) // len(chunks): (i + 1) * len(body) // len(chunks)]
+                writer.write(b"%x\r\n" % len(piece) + piece + b"\r\n")
+                await writer.drain()
+            writer.write(b"0\r\n\r\n")
+        await writer.drain()
+        ex["end"], ex["how"] = self.now(), "done"
+        return True
+
+
+class RealStack:
+    """EsClientFactory.create_async -> RallyAsyncElasticsearch -> elastic_transport -> aiohttp with the trace hooks registered by
+    factory.py.  Observed from outside: which request-context callback is invoked when (class-level wrappers around
+    on_request_start / on_request_end that call the originals), which path a task is requesting (wrapper around perform_request)."""
+
+    def __init__(self, scripts):
+        self.server = ScriptedServer(scripts)
+        self.clients = []
+        self.cur_path = {}
+        self.undo = []
+
+    async def start(self, rec, loop):
+        from esrally.client.asynchronous import RallyAsyncElasticsearch as R
+
+        context = _mods()["context"]
+        await self.server.start()
+        stack = self
+
+        def wire(is_start):
+            task = asyncio.current_task()
+            if task not in rec.tasks:
+                raise HarnessError("trace hook invoked outside the tasks of the logical request")
+            tid = rec.tasks[task]
+            cur = rec.cur_ctx()
+            t = _Clock.fn()
+            rec.wires.append({"task": tid, "cur": cur, "start": is_start, "t": Fraction(t), "op": stack.cur_path.get(tid), "idx": len(rec.events)})
+            rec.events.append({"k": "ws" if is_start else "we", "task": tid, "t": q(t)})
+            if cur is not None and any(rec.closed[a] for a in rec.ancestors(cur)):
+                rec.late = True
+
+        def hook(name, is_start):
+            orig = getattr(context.RequestContextHolder, name).__func__
+
+            def wrapper(cls):
+                orig(cls)
+                wire(is_start)
+
+            setattr(R, name, classmethod(wrapper))
+            self.undo.append(lambda: delattr(R, name))
+
+        hook("on_request_start", True)
+        hook("on_request_end", False)
+        orig_perform = R.perform_request
+
+        async def perform_request(es, method, path, **kw):
+            task = asyncio.current_task()
+            tid = rec.tasks.get(task)
+            stack.cur_path[tid] = path.split("?")[0]
+            try:
+                return await orig_perform(es, method, path, **kw)
+            finally:
+                stack.cur_path.pop(tid, None)
+
+        R.perform_request = perform_request
+        self.undo.append(lambda: setattr(R, "perform_request", orig_perform))
+
+    def make_es(self, rec, client_id):
+        from esrally import client
+
+        es = client.EsClientFactory([{"host": "127.0.0.1", "port": self.server.port}], {}).create_async(client_id=client_id)
+        real_new = es.new_request_context
+        es.new_request_context = lambda: ProxyMgr(rec, real_new())
+        self.clients.append(es)
+        return es
+
+    async def stop(self):
+        try:
+            for es in self.clients:
+                await es.close()
+            await self.server.stop()
+        finally:
+            for u in reversed(self.undo):
+                u()
+            self.undo = []
+
+
+OUTCOMES = ["ok", "ok", "ok", "ok-slow-body", "ok-chunked", "status-404", "status-503", "head",
+            "timeout-before-headers", "timeout-before-headers-stalled", "timeout-after-headers", "timeout-after-headers-stalled", "timeout-mid-body",
+            "server-closes-before-headers", "server-closes-after-headers", "server-closes-mid-body"]
+FATAL = ("server-closes-before-headers", "server-closes-after-headers", "server-closes-mid-body")   # ConnectionError: the executor aborts
+D_SRV = [None, 0.25, 0.5, 1.0, 2.0]
+
+
+def gen_real_op(rng, st, name_mode, outcome):
+    """one raw-request sub-request + the script of its path; st = {"n": running number, "server": {...}}"""
+    uid = f"h{st['n']}"
+    st["n"] += 1
+    k = 4 + st["n"]            # a time-out gets its own binary digit: its expiry can never coincide with another event
+    eps = 2.0 ** -k
+    op = {"operation-type": "raw-request", "path": "/" + uid}
+    name = pick_name(rng, uid, name_mode)
+    if name is not None:
+        op["name"] = name
+    if rng.random() < 0.2:
+        op["method"] = "POST"
+        op["body"] = {"query": {"match_all": {}}}
+    sc = {"status": 200, "pre": rng.choice(D_SRV)}
+    if outcome in ("ok", "head"):
+        sc["body_delay"] = None
+        if outcome == "head":
+            op["method"] = "HEAD"
+            op.pop("body", None)
+    elif outcome == "ok-slow-body":
+        sc["body_delay"] = rng.choice([0.5, 1.0, 2.0])
+        if rng.random() < 0.5:
+            op["request-timeout"] = 8.0 + eps          # generous: never expires
+    elif outcome == "ok-chunked":
+        sc["chunks"] = [rng.choice(D_SRV) for _ in range(rng.choice([1, 2, 3, 4]))]
+    elif outcome.startswith("status-"):
+        sc["status"] = int(outcome[7:])
+        if rng.random() < 0.5:
+            sc["chunks"] = [rng.choice(D_SRV) for _ in range(rng.choice([1, 2]))]
+    elif outcome == "timeout-before-headers":
+        sc["pre"] = rng.choice([1.0, 2.0])
+        op["request-timeout"] = rng.choice([0.25, 0.5]) + eps
+    elif outcome == "timeout-before-headers-stalled":
+        sc["stall"] = "before_headers"
+        op["request-timeout"] = rng.choice([0.5, 1.0, 2.0]) + eps
+    elif outcome == "timeout-after-headers":
+        sc["pre"] = rng.choice([None, 0.25, 0.5])
+        sc["body_delay"] = 4.0
+        op["request-timeout"] = rng.choice([1.0, 2.0]) + eps
+    elif outcome == "timeout-after-headers-stalled":
+        sc["pre"] = rng.choice([None, 0.25, 0.5])
+        sc["stall"] = "after_headers"
+        op["request-timeout"] = rng.choice([1.0, 2.0]) + eps
+    elif outcome == "timeout-mid-body":
+        sc["pre"] = rng.choice([None, 0.25])
+        sc["chunks"] = [rng.choice([None, 0.25]) for _ in range(rng.choice([2, 3, 4]))]
+        sc["stall"] = "mid_body"
+        op["request-timeout"] = rng.choice([1.0, 2.0]) + eps
+    elif outcome == "server-closes-before-headers":
+        sc["close"] = "before_headers"
+    elif outcome == "server-closes-after-headers":
+        sc["close"] = "after_headers"
+    elif outcome == "server-closes-mid-body":
+        sc["chunks"] = [rng.choice([None, 0.25]) for _ in range(rng.choice([2, 3]))]
+        sc["close"] = "mid_body"
+    st["server"]["/" + uid] = sc
+    return op
+
+
+def gen_real(ctx):
+    rng = ctx.rng
+    for _ in range(ctx.budget):
+        st = {"n": 0, "server": {}}
+        clients = []
+        for cid in range(rng.choice([1, 1, 1, 2])):
+            name_mode = rng.choice(["unique", "pool", "same"])
+            p_bad = rng.choice([0.0, 0.3, 0.6])
+            fatal_used = False
+            reqs = []
+            nreq = rng.choice([1, 2, 2, 3])
+            for ri in range(nreq):
+                def outcome(last_of_client):
+                    nonlocal fatal_used
+                    if rng.random() >= p_bad:
+                        return rng.choice(OUTCOMES[:8])
+                    o = rng.choice(OUTCOMES[8:])
+                    if o in FATAL:
+                        # a connection error is fatal for the executor: only as the very last thing a client does
+                        if not last_of_client or fatal_used:
+                            return rng.choice(OUTCOMES[8:13])
+                        fatal_used = True
+                    return o
+
+                last_req = ri == nreq - 1
+                if rng.random() < 0.75:
+                    def stream(depth):
+                        items = []
+                        n = rng.choice([1, 2, 2, 3])
+                        for i in range(n):
+                            if depth < 2 and rng.random() < 0.4:
+                                items.append({"stream": stream(depth + 1)})
+                            else:
+                                items.append(gen_real_op(rng, st, name_mode, outcome(False)))
+                        return items
+
+                    items = stream(0)
+                    if last_req and rng.random() < p_bad * 0.5 and not fatal_used:
+                        items.append(gen_real_op(rng, st, name_mode, rng.choice(FATAL)))
+                        fatal_used = True
+                    params = {"name": f"req{ri}", "requests": items}
+                    if rng.random() < 0.2:
+                        params["max-connections"] = rng.choice([1, 2])
+                    reqs.append({"type": "composite", "params": params, "at": 0})
+                else:
+                    op = gen_real_op(rng, st, name_mode, outcome(last_req))
+                    op.pop("operation-type")
+                    reqs.append({"type": "raw-request", "params": op, "at": 0})
+            clients.append({"id": cid, "ramp": rng.choice([None, None, 0.25, 1.0]), "requests": reqs})
+        yield {"clients": clients, "server": st["server"]}
+
+
+class Findings:
+    """collects what one evaluation of a case reports, so that a case can be evaluated twice before anything is reported"""
+
+    def __init__(self, ctx):
+        self.ctx, self.items, self.counts, self.sigs = ctx, [], [], []
+
+    def model(self, *a):
+        return self.ctx.model(*a)
+
+    def diff(self, what, expected, observed):
+        self.items.append(("diff", None, what, expected, observed))
+
+    def fail(self, cls, what, expected=None, observed=None):
+        self.items.append(("fail", cls, what, expected, observed))
+
+    def count(self, key, n=1):
+        self.counts.append((key, n))
+
+    def sig(self, signature, nontrivial=True):
+        self.sigs.append((signature, nontrivial))
+
+    def flush(self):
+        for kind, cls, what, e, o in self.items:
+            if kind == "diff":
+                self.ctx.diff(what, e, o)
+            else:
+                self.ctx.fail(cls, what, e, o)
+        for k, n in self.counts:
+            self.ctx.count(k, n)
+        for sg, nt in self.sigs:
+            self.ctx.sig(sg, nt)
+
+
+def request_paths(r):
+    if r["type"] == "composite":
+        return [op["path"] for op in flat_ops(r["params"]["requests"])]
+    return [r["params"]["path"]]
+
+
+def eval_real(f, case):
+    """one execution of the case on the real stack + all comparisons; returns a fingerprint of what was observed"""
+    clients = case["clients"]
+    stack = RealStack(case["server"])
+    rec, samples, failure = exec_clients(copy.deepcopy(clients), stack=stack)
+    log = stack.server.log
+    fingerprint = json.dumps([samples, log, rec.reads, failure], sort_keys=True, default=str)
+    what = "real_client"
+    has_fatal = any(sc.get("close") for sc in case["server"].values())
+    if failure is not None and not has_fatal:
+        f.diff(what + ": the code under test raised", "no exception", failure)
+        return fingerprint
+    f.count("executor-aborted-by-connection-error:" + ("yes" if failure else "no"))
+    m = check_against_model(f, what, rec, samples, clients, aborted=failure is not None)
+    # --- the hook table: the request-context callbacks of every HTTP request are those of the model for its outcome class
+    by_path = {}
+    for e in log:
+        by_path.setdefault(e["path"], []).append(e)
+    groups = {}
+    for w in rec.wires:
+        g = groups.setdefault(w["op"], [])
+        if w["start"] or not g:
+            g.append([])
+        g[-1].append("start" if w["start"] else "end")
+    failed_paths = set()
+    for cl in clients:
+        ss = [x for x in samples if x["client"] == cl["id"]]
+        for i, r in enumerate(cl["requests"]):
+            if i >= len(ss) or not ss[i]["success"]:
+                failed_paths.update(request_paths(r))
+    for path, exs in sorted(by_path.items()):
+        gs = groups.get(path, [])
+        if case["server"][path].get("close") and gs and len(exs) > len(gs) and len(exs) % len(gs) == 0:
+            # aiohttp re-sends a request once by itself when the server drops the connection (no new on_request_start):
+            # one HTTP request for the hooks = several exchanges for the server; the last one decides how it ended
+            k = len(exs) // len(gs)
+            exs = [exs[j * k + k - 1] for j in range(len(gs))]
+            f.count("aiohttp-internal-resend")
+        if len(gs) != len(exs):
+            f.diff(f"{what}: {path}: number of HTTP requests seen by the hooks vs by the server", len(exs), gs)
+            continue
+        for gi, (ex, g) in enumerate(zip(exs, gs)):
+            if ex["end"] is None:
+                continue        # still open when the run was torn down (cannot happen for a request of a recorded logical request)
+            oc = "complete" if ex["how"] == "done" else ("failBeforeHeaders" if ex["hdr"] is None else "failAfterHeaders")
+            mh = f.model("ctx", "hooks", {"outcome": oc, "last": gi == len(gs) - 1})
+            if oc == "complete" and mh["r"] != g and path in failed_paths and g == f.model("ctx", "hooks", {"outcome": "failAfterHeaders"})["r"]:
+                # the response arrived at the very (virtual) instant at which the stream was cancelled because a sibling failed:
+                # complete for the server, given up after the headers by the client
+                oc, mh = "failAfterHeaders", {"r": g}
+                f.count("cancelled-at-arrival")
+            f.count("outcome:" + oc)
+            if mh["r"] != g:
+                f.diff(f"{what}: request-context callbacks of {ex['method']} {path} ({oc})", mh["r"], g)
+    # --- independent oracle: the server's own log
+    client_tasks = [e["task"] for e in rec.events if e["k"] == "client"]
+    cls_seen = None
+    for cl, t in zip(clients, client_tasks):
+        tops = [c for c in range(len(rec.mgrs)) if rec.parent[c] is None and rec.opener[c] == t]
+        reads = {r["ctx"]: r for r in rec.reads}
+        ss = [s for s in samples if s["client"] == cl["id"]]
+        for i, r in enumerate(cl["requests"]):
+            if i >= len(tops):
+                if failure is None:
+                    f.fail("missing-sample", f"{what}: request {i} of client {cl['id']} was never executed")
+                continue
+            exs = [e for p in request_paths(r) for e in by_path.get(p, [])]
+            obs = reads.get(tops[i])
+            if obs is None or not exs:
+                f.diff(f"{what}: request {i} of client {cl['id']}: context not exited / no HTTP request reached the server", "an exit and >= 1 exchange", [obs, len(exs)])
+                continue
+            exp = {"start": q(min(e["recv"] for e in exs)), "end": q(max(e["end"] for e in exs if e["end"] is not None))}
+            got = {"start": obs["start"], "end": obs["end"]}
+            if got != exp:
+                gs, ge = (None if got[k] is None else Fraction(got[k]) for k in ("start", "end"))
+                necessary = gs is not None and ge is not None and all(gs <= Fraction(e["recv"]) and ge >= Fraction(e["hdr"] if e["hdr"] is not None else e["recv"]) for e in exs)
+                at_hdr = {"start": exp["start"], "end": q(max((e["hdr"] if (e["how"] != "done" and e["hdr"] is not None) else e["end"]) for e in exs if e["end"] is not None))}
+                cls_seen = CLS_NOEND if not necessary else (CLS_HDR_END if got == at_hdr else CLS_REAL)
+                f.fail(cls_seen, f"{what}: request {i} of client {cl['id']}: recorded start/end is not (request received by the server first, last moment an HTTP request of it was still going on) "
+                       f"- exchanges {[(e['path'], q(e['recv']), q(e['hdr']), q(e['end']), e['how']) for e in exs]}", exp, got)
+            # sub-requests of a successful composite: one record per executed sub-request, from the server's log
+            if i < len(ss) and ss[i]["success"] and r["type"] == "composite":
+                exp_list = []
+                for op in flat_ops(r["params"]["requests"]):
+                    oe = by_path.get(op["path"], [])
+                    a, b = min(e["recv"] for e in oe), max(e["end"] for e in oe)
+                    exp_list.append({"operation": op.get("name"), "type": "raw-request", "start": q(a), "end": q(b), "svc": q(float(b) - float(a))})
+                key = lambda e: json.dumps(e, sort_keys=True)
+                if sorted(map(key, exp_list)) != sorted(map(key, ss[i]["raw_deps"] or [])):
+                    f.fail(CLS_SUB, f"{what}: dependent_timing of request {i} of client {cl['id']} differs from one record per sub-request computed from the server's log", exp_list, ss[i]["raw_deps"])
+    f.count("http-requests", len(log))
+    f.sig([m.get("tags"), sorted({("complete" if e["how"] == "done" else ("before" if e["hdr"] is None else "after")) for e in log if e["end"] is not None}),
+           failure is not None, cls_seen, min(len(clients), 2)], nontrivial=len(log) > 1)
+    return fingerprint
+
+
+def run_real(ctx, case):
+    f = Findings(ctx)
+    fp = eval_real(f, case)
+    if f.items:
+        # timing is virtual, but the sockets are real: report only what an immediate second execution reproduces
+        f2 = Findings(ctx)
+        fp2 = eval_real(f2, case)
+        if fp2 != fp:
+            ctx.count("io-not-reproducible:skipped")
+            return
+    f.flush()
+
+
+# ---------------------------------------------------------------------------------------------------------
+# table translator: which aiohttp trace signals are wired to which request-context callback (factory.py, AST)
+# ---------------------------------------------------------------------------------------------------------
+SIGNAL_CODES = {"on_request_start": 0, "on_request_end": 1, "on_response_chunk_received": 2, "on_request_exception": 3}
+ACT_CODES = {"on_request_start": 0, "on_request_end": 1}
+
+
+def trace_hook_table(repo_root):
+    """[(signal, holder method)] in registration order: every `<TraceConfig>.<signal>.append(<callback>)` in
+    EsClientFactory.create_async, the callback resolved to the RequestContextHolder classmethods its body calls"""
+    import ast
+
+    src = open(os.path.join(repo_root, "esrally", "client", "factory.py"), encoding="utf-8").read()
+    tree = ast.parse(src)
+    fn = None
+    for node in ast.walk(tree):
+        if isinstance(node, ast.ClassDef) and node.name == "EsClientFactory":
+            for b in node.body:
+                if isinstance(b, ast.FunctionDef) and b.name == "create_async":
+                    fn = b
+    if fn is None:
+        raise HarnessError("EsClientFactory.create_async not found")
+    trace_vars, callbacks = set(), {}
+    for node in ast.walk(fn):
+        if isinstance(node, ast.Assign) and isinstance(node.value, ast.Call) and isinstance(node.value.func, ast.Attribute) and node.value.func.attr == "TraceConfig":
+            for t in node.targets:
+                if isinstance(t, ast.Name):
+                    trace_vars.add(t.id)
+        if isinstance(node, (ast.AsyncFunctionDef, ast.FunctionDef)) and node is not fn:
+            calls = []
+            for c in ast.walk(node):
+                if isinstance(c, ast.Call) and isinstance(c.func, ast.Attribute) and isinstance(c.func.value, ast.Name) and c.func.value.id == "RallyAsyncElasticsearch":
+                    calls.append(c.func.attr)
+            callbacks[node.name] = calls
+    if not trace_vars:
+        raise HarnessError("no aiohttp.TraceConfig() in create_async")
+    rows = []
+    for node in ast.walk(fn):
+        if (isinstance(node, ast.Call) and isinstance(node.func, ast.Attribute) and node.func.attr == "append" and isinstance(node.func.value, ast.Attribute)
+                and isinstance(node.func.value.value, ast.Name) and node.func.value.value.id in trace_vars):
+            signal = node.func.value.attr
+            if len(node.args) != 1 or not isinstance(node.args[0], ast.Name) or node.args[0].id not in callbacks:
+                raise HarnessError(f"cannot resolve the callback registered for {signal}")
+            for m in callbacks[node.args[0].id] or [None]:
+                rows.append((node.lineno, signal, m))
+    rows.sort()
+    return [(sg, m) for _, sg, m in rows]
+
+
+def end_on_failure(repo_root):
+    """does RallyAsyncElasticsearch.perform_request itself record the end of a request that fails?  0 = no; 1 = `except Exception`
+    around the transport call invokes self.on_request_end() and re-raises; 2 = the same for every exception (bare except /
+    BaseException, i.e. also cancellation)"""
+    import ast
+
+    src = open(os.path.join(repo_root, "esrally", "client", "asynchronous.py"), encoding="utf-8").read()
+    best = 0
+    for cls in ast.walk(ast.parse(src)):
+        if isinstance(cls, ast.ClassDef) and cls.name == "RallyAsyncElasticsearch":
+            for fn in cls.body:
+                if isinstance(fn, ast.AsyncFunctionDef) and fn.name == "perform_request":
+                    for t in ast.walk(fn):
+                        if not isinstance(t, ast.Try):
+                            continue
+                        guarded = any(isinstance(c, ast.Call) and isinstance(c.func, ast.Attribute) and c.func.attr == "perform_request"
+                                      and isinstance(c.func.value, ast.Attribute) and c.func.value.attr == "transport" for b in t.body for c in ast.walk(b))
+                        if not guarded:
+                            continue
+                        for h in t.handlers:
+                            calls = any(isinstance(c, ast.Call) and isinstance(c.func, ast.Attribute) and c.func.attr == "on_request_end" for b in h.body for c in ast.walk(b))
+                            reraises = any(isinstance(c, ast.Raise) and c.exc is None for b in h.body for c in ast.walk(b))
+                            if calls and reraises:
+                                every = h.type is None or (isinstance(h.type, ast.Name) and h.type.id == "BaseException")
+                                best = max(best, 2 if every else 1)
+    return best
+
+
+def translate(repo_root):
+    rows = trace_hook_table(repo_root)
+    eof = end_on_failure(repo_root)
+    out = [
+        "/- GENERATED by harness/c18.py translate() from esrally/client/factory.py (EsClientFactory.create_async) — do not edit -/",
+        "namespace Gen.TraceHooks",
+        "",
+        "/-- (aiohttp TraceConfig signal, request-context callback invoked by the registered handler), in registration order.",
+        "    signal: 0 on_request_start, 1 on_request_end, 2 on_response_chunk_received, 3 on_request_exception, 4 any other;",
+        "    callback: 0 RequestContextHolder.on_request_start, 1 RequestContextHolder.on_request_end, 2 anything else -/",
+        "def registered : List (Nat × Nat) := [",
+        ",\n".join(f"  ({SIGNAL_CODES.get(sg, 4)}, {ACT_CODES.get(m, 2)})" for sg, m in rows),
+        "]",
+        "/- " + "; ".join(f"{sg} -> {m}" for sg, m in rows) + " -/",
+        "",
+        "/-- RallyAsyncElasticsearch.perform_request (asynchronous.py): 0 = a failing transport call is not handled there; 1 = `except Exception`",
+        "    around it calls self.on_request_end() and re-raises; 2 = the same for every exception (also cancellation) -/",
+        f"def endOnFailure : Nat := {eof}",
+        "",
+        "end Gen.TraceHooks",
+        "",
+    ]
+    text = "\n".join(out)
+    path = os.path.join(os.path.dirname(os.path.dirname(os.path.abspath(__file__))), "lean", "RallyGen", "TraceHooks.lean")
+    if not os.path.exists(path) or open(path, encoding="utf-8").read() != text:
+        with open(path, "w", encoding="utf-8") as f:
+            f.write(text)
+    return {"registered": rows, "endOnFailure": eof}
+
+
 STREAMS = [
     Stream("direct", gen_direct, run_direct, quick=8000, thorough=200000, shards=16),
     Stream("direct_exhaustive", gen_direct_exhaustive, run_direct, quick=1600, thorough=1, shards=16, exhaustive_thorough=True),
     Stream("direct_malformed", gen_direct_malformed, run_direct_malformed, quick=480, thorough=8000, shards=4),
     Stream("composite", gen_composite, run_clients, quick=4800, thorough=80000, shards=16),
     Stream("clients", gen_clients, run_clients, quick=1600, thorough=24000, shards=16),
+    Stream("real_client", gen_real, run_real, quick=480, thorough=8000, shards=16),
 ]
